@@ -145,6 +145,10 @@ func (clnt *Clnt) recv() {
 
 		n, oerr := clnt.conn.Read(buf[pos:])
 		if oerr != nil || n == 0 {
+			if oerr == nil {
+				/* a full buffer reads 0 bytes without an error */
+				oerr = &Error{"short read", EIO}
+			}
 			err = &Error{oerr.Error(), EIO}
 			clnt.Lock()
 			clnt.err = err
